@@ -44,6 +44,7 @@ var bodyPkgs = map[string]bool{
 }
 
 var execStdPkgs = map[string]bool{
+	"time": true,
 	"strings": true, "strconv": true, "unicode": true, "slices": true, "sort": true, "cmp": true,
 }
 
@@ -58,7 +59,7 @@ func (p *Program) isExecuted(pkgPath string) bool {
 
 // skipInit: packages whose init is not run (their globals are opaque).
 func (p *Program) skipInit(pkgPath string) bool {
-	if pkgPath == "github.com/shopspring/decimal" {
+	if pkgPath == "github.com/shopspring/decimal" || pkgPath == "time" {
 		return false
 	}
 	if !strings.HasPrefix(pkgPath, RepoModule) {
